@@ -113,6 +113,31 @@ func hyperCoordinates(c *Ctx, rule string) {
 			return t.Op == "call" && t.Fn != nil && t.Fn.Name() == "Right" && len(t.Args) == 1 && isPos(t.Args[0])
 		}
 		splitPart := func(t *Term, k int) bool {
+			// inlined form: leaves[:S] / leaves[S:] with S = sort.Search(len(leaves), func(i) … Right(pos).Index …)
+			if t.Op == "slice" && len(t.Args) == 3 && tv.lvI >= 0 && t.Args[0].IsParam(fn, tv.lvI) {
+				s, other := t.Args[2], t.Args[1]
+				if k == 1 {
+					s, other = t.Args[1], t.Args[2]
+				}
+				if !(other.Op == "const" && other.Name == "_") || s.Op != "call" || s.Fn == nil || s.Fn.Name() != "Search" || len(s.Args) != 2 {
+					return false
+				}
+				if mc, ok := s.Args[1].V.(*ssa.MakeClosure); ok {
+					for _, b := range mc.Bindings {
+						bt := p.TermOf(b)
+						if al, isAl := b.(*ssa.Alloc); isAl {
+							// a captured local: what was stored into it
+							if whole, _ := p.storesTo(al); len(whole) == 1 {
+								bt = p.TermOf(whole[0])
+							}
+						}
+						if bt.IsField("Index", isRight) || isRight(bt) {
+							return true
+						}
+					}
+				}
+				return false
+			}
 			// Split(leaves, Right(pos).Index)#k  (method or closure)
 			if t.Op != "extract" || t.Idx != k {
 				return false
@@ -378,12 +403,39 @@ func readerBufferDiscipline(c *Ctx, rule string, pkgs []string) {
 				c.Ok(rule, label, in.Pos(), "fresh buffer per read: stale entries cannot be seen")
 				return
 			}
-			// count = result #0 of this Read
+			// count = result #0 of this Read, or of any Read into the same buffer in this function
+			// (a three-clause `for n, err := r.Read(buf); …; n, err = r.Read(buf)` has two sites
+			// whose counts meet in a phi)
 			var count ssa.Value
-			for _, r := range *call.Referrers() {
-				if ex, ok := r.(*ssa.Extract); ok && ex.Index == 0 {
-					count = ex
+			counts := map[ssa.Value]bool{}
+			eachInstr(fn, func(i2 ssa.Instruction) {
+				c2, isCall := i2.(*ssa.Call)
+				if !isCall || !c2.Call.IsInvoke() || c2.Call.Method.Name() != "Read" || len(c2.Call.Args) == 0 || c2.Call.Args[0] != buf {
+					return
 				}
+				for _, r := range *c2.Referrers() {
+					if ex, ok := r.(*ssa.Extract); ok && ex.Index == 0 {
+						counts[ex] = true
+						if c2 == call {
+							count = ex
+						}
+					}
+				}
+			})
+			var isCount func(v ssa.Value, depth int) bool
+			isCount = func(v ssa.Value, depth int) bool {
+				if counts[v] {
+					return true
+				}
+				if ph, ok := v.(*ssa.Phi); ok && depth < 3 {
+					for _, e := range ph.Edges {
+						if !isCount(e, depth+1) {
+							return false
+						}
+					}
+					return len(ph.Edges) > 0
+				}
+				return false
 			}
 			bad := 0
 			uses := 0
@@ -395,7 +447,7 @@ func readerBufferDiscipline(c *Ctx, rule string, pkgs []string) {
 					idx, at = u.Index, u
 				case *ssa.Slice:
 					// tiles[:n] is fine; any other re-slice is not tracked
-					if u.High != nil && count != nil && u.High == count && u.Low == nil {
+					if u.High != nil && count != nil && isCount(u.High, 0) && u.Low == nil {
 						continue
 					}
 					if len(*u.Referrers()) > 0 {
@@ -413,7 +465,7 @@ func readerBufferDiscipline(c *Ctx, rule string, pkgs []string) {
 				uses++
 				it := p.TermOf(idx)
 				cs := p.CondsAt(at.Block())
-				okb := count != nil && impliesLT(cs, func(t *Term) bool { return t.String() == it.String() }, func(t *Term) bool { return t.V == count })
+				okb := count != nil && impliesLT(cs, func(t *Term) bool { return t.String() == it.String() }, func(t *Term) bool { return t.V != nil && isCount(t.V, 0) })
 				if !okb {
 					bad++
 					c.Fail(rule, label, at.Pos(), "entry "+it.String()+" of the reused read buffer is used without the bound i < n (n = entries returned by this Read): entries of the previous chunk would be processed again")
